@@ -105,21 +105,28 @@ Theorem censored_uncensored_ppf thr q : censored_ppf thr false q gf G = ppf G gf
 Proof. reflexivity. Qed.
 End Censored.
 
-(* ---------- ignore-zeros model: hand model over extended rationals ---------- *)
+(* ---------- ignore-zeros model (REGENERATED: GenPrecip.ignorezeros_cdf / ignorezeros_ppf) ---------- *)
 Section IgnoreZeros.
 Context {P : Type} (D : dist P).
 Variable fr : P.
-Definition iz_cdf (x : Q) : XQ.t := if Qeq_bool x 0 then XQ.NInf else XQ.Fin (cdf D fr x).
-Definition iz_ppf (q : XQ.t) : Q := match q with XQ.NInf => 0 | XQ.Fin v => ppf D fr v | XQ.PInf => ppf D fr 1 end.
 
-Theorem ignorezeros_sentinel : iz_cdf 0 = XQ.NInf /\ iz_ppf XQ.NInf = 0.
+Theorem ignorezeros_sentinel : ignorezeros_cdf D 0 fr = XQ.NInf /\ ignorezeros_ppf D XQ.NInf fr == 0.
 Proof. split; reflexivity. Qed.
 
-Theorem ignorezeros_roundtrip_wet x : ~ x == 0 -> ppf D fr (cdf D fr x) == x -> iz_ppf (iz_cdf x) == x.
+(** exactly the zeros are sent to -inf: every other value, however small, keeps a finite cdf value *)
+Theorem ignorezeros_cdf_spec x :
+  (x == 0 -> ignorezeros_cdf D x fr = XQ.NInf) /\ (~ x == 0 -> ignorezeros_cdf D x fr = XQ.Fin (cdf D fr x)).
 Proof.
-  intros Hx Hinv. unfold iz_cdf. destruct (Qeq_bool x 0) eqn:E; [apply Qeq_bool_iff in E; contradiction|]. exact Hinv.
+  unfold ignorezeros_cdf. change (inject_Z 0) with 0. split; intro H.
+  - apply Qeq_bool_iff in H. rewrite H. reflexivity.
+  - destruct (Qeq_bool x 0) eqn:E; [apply Qeq_bool_iff in E; contradiction|reflexivity].
 Qed.
 
-Theorem ignorezeros_dry_zero : iz_ppf (iz_cdf 0) = 0.
+Theorem ignorezeros_roundtrip_wet x : ~ x == 0 -> ppf D fr (cdf D fr x) == x -> ignorezeros_ppf D (ignorezeros_cdf D x fr) fr == x.
+Proof.
+  intros Hx Hinv. rewrite (proj2 (ignorezeros_cdf_spec x) Hx). unfold ignorezeros_ppf. cbn. exact Hinv.
+Qed.
+
+Theorem ignorezeros_dry_zero : ignorezeros_ppf D (ignorezeros_cdf D 0 fr) fr == 0.
 Proof. reflexivity. Qed.
 End IgnoreZeros.
